@@ -6,6 +6,14 @@ T = "src/allmydata/scripts/tahoe_backup.py"
 GATE = ("        if ((last_size != size\n             or not use_timestamps\n             or last_mtime != mtime\n"
         "             or last_ctime != ctime) # the file has been changed\n")
 
+SELID = ("        c.execute(\"SELECT fileid FROM caps WHERE filecap=?\", (filecap,))\n"
+         "        foundrow = c.fetchone()\n        assert foundrow\n        fileid = foundrow[0]\n")
+GETID = ("        try:\n            c.execute(\"INSERT INTO caps (filecap) VALUES (?)\", (filecap,))\n"
+         "        except (self.sqlite_module.IntegrityError, self.sqlite_module.OperationalError):\n"
+         "            # sqlite3 on sid gives IntegrityError\n"
+         "            # pysqlite2 (which we don't use, so maybe no longer relevant) on dapper gives OperationalError\n"
+         "            pass\n" + SELID + "        return fileid\n")
+
 MUTANTS = [
     # ---- C42.1 gate of check_file
     M("gate-ctime-dropped", B, GATE,
@@ -138,6 +146,100 @@ MUTANTS = [
     M("benign-tb-inline", T,
       '        use_timestamps = not self.options["ignore-timestamps"]\n        r = self.backupdb.check_file(childpath, use_timestamps)',
       '        r = self.backupdb.check_file(childpath, use_timestamps=not self.options["ignore-timestamps"])', None),
+    # ---- C42.5 the fileid links the path to the caps row of the recorded cap
+    M("fileid-insert-or-ignore-lastrowid", B, GETID,
+      "        c.execute(\"INSERT OR IGNORE INTO caps (filecap) VALUES (?)\", (filecap,))\n"
+      "        fileid = c.lastrowid\n"
+      "        if not fileid:\n"
+      "            c.execute(\"SELECT fileid FROM caps WHERE filecap=?\", (filecap,))\n"
+      "            foundrow = c.fetchone()\n"
+      "            assert foundrow\n"
+      "            fileid = foundrow[0]\n"
+      "        return fileid\n", "C42.5"),
+    M("fileid-lastrowid-after-swallowed-error", B, SELID, "        fileid = c.lastrowid\n", "C42.5"),
+    M("fileid-lastrowid-in-handler", B, GETID,
+      "        try:\n"
+      "            c.execute(\"INSERT INTO caps (filecap) VALUES (?)\", (filecap,))\n"
+      "        except (self.sqlite_module.IntegrityError, self.sqlite_module.OperationalError):\n"
+      "            return c.lastrowid\n"
+      "        c.execute(\"SELECT fileid FROM caps WHERE filecap=?\", (filecap,))\n"
+      "        foundrow = c.fetchone()\n"
+      "        assert foundrow\n"
+      "        fileid = foundrow[0]\n"
+      "        return fileid\n", "C42.5"),
+    M("fileid-select-not-by-filecap", B,
+      '        c.execute("SELECT fileid FROM caps WHERE filecap=?", (filecap,))\n', '        c.execute("SELECT fileid FROM caps")\n', "C42.5"),
+    M("fileid-of-last-upload-row", B, SELID,
+      "        fileid = c.execute(\"INSERT OR REPLACE INTO last_upload (last_uploaded) VALUES (?)\", (time.time(),)).lastrowid\n",
+      "C42.5"),
+    M("fileid-asked-for-the-path", B,
+      "        now = time.time()\n        fileid = self.get_or_allocate_fileid_for_cap(filecap)\n        try:\n",
+      "        now = time.time()\n        fileid = self.get_or_allocate_fileid_for_cap(path)\n        try:\n", "C42"),
+    M("benign-fileid-lastrowid-of-successful-insert", B, GETID,
+      "        try:\n"
+      "            c.execute(\"INSERT INTO caps (filecap) VALUES (?)\", (filecap,))\n"
+      "            fileid = c.lastrowid\n"
+      "        except (self.sqlite_module.IntegrityError, self.sqlite_module.OperationalError):\n"
+      "            c.execute(\"SELECT fileid FROM caps WHERE filecap=?\", (filecap,))\n"
+      "            foundrow = c.fetchone()\n"
+      "            assert foundrow\n"
+      "            fileid = foundrow[0]\n"
+      "        return fileid\n", None),
+    M("benign-fileid-select-first", B, GETID,
+      "        c.execute(\"SELECT fileid FROM caps WHERE filecap=?\", (filecap,))\n"
+      "        known = c.fetchone()\n"
+      "        if known:\n"
+      "            return known[0]\n"
+      "        return c.execute(\"INSERT INTO caps (filecap) VALUES (?)\", (filecap,)).lastrowid\n", None),
+    M("benign-fileid-inlined-temporary", B,
+      "        foundrow = c.fetchone()\n        assert foundrow\n        fileid = foundrow[0]\n        return fileid\n",
+      "        (the_id,) = c.fetchone()\n        return the_id\n", None),
+    # ---- C42.6 the recorded metadata was observed before the content was read
+    M("meta-restat-in-did-upload", B,
+      "    def did_upload(self, filecap):\n",
+      "    def did_upload(self, filecap):\n        s = os.stat(self.path)\n        self.size = s[stat.ST_SIZE]\n"
+      "        self.mtime = s[stat.ST_MTIME]\n        self.ctime = s[stat.ST_CTIME]\n", "C42.6"),
+    M("meta-restat-in-did-upload-file", B,
+      "        now = time.time()\n        fileid = self.get_or_allocate_fileid_for_cap(filecap)\n        try:\n",
+      "        now = time.time()\n        s = os.stat(path)\n        mtime = s.st_mtime\n        ctime = s.st_ctime\n"
+      "        fileid = self.get_or_allocate_fileid_for_cap(filecap)\n        try:\n", "C42.6"),
+    M("meta-getsize-after-upload", B,
+      "                                 self.mtime, self.ctime, self.size)", "                                 self.mtime, self.ctime, os.path.getsize(self.path))",
+      "C42.6"),
+    M("meta-refresh-helper", B,
+      "    def did_upload(self, filecap):\n",
+      "    def _refresh(self):\n        self.mtime = os.stat(self.path).st_mtime\n\n"
+      "    def did_upload(self, filecap):\n        self._refresh()\n", "C42.6"),
+    M("tb-database-consulted-after-upload", T,
+      "            if bdb_results:\n                bdb_results.did_upload(filecap)\n",
+      "            must_upload, bdb_results = self.check_backupdb_file(childpath)\n"
+      "            if bdb_results:\n                bdb_results.did_upload(filecap)\n", "C42.6"),
+    M("tb-content-read-before-database", T,
+      "        must_upload, bdb_results = self.check_backupdb_file(childpath)\n\n        if must_upload:\n",
+      "        url = self.options['node-url'] + \"uri\"\n        resp = do_http(\"PUT\", url, open(childpath, \"rb\"))\n"
+      "        must_upload, bdb_results = self.check_backupdb_file(childpath)\n\n        if must_upload:\n",
+      "C42.6", edits=[(T, "            infileobj = open(childpath, \"rb\")\n            url = self.options['node-url'] + \"uri\"\n"
+                         "            resp = do_http(\"PUT\", url, infileobj)\n", "")]),
+    M("benign-meta-locals-in-did-upload", B,
+      "        self.bdb.did_upload_file(filecap, self.path,\n                                 self.mtime, self.ctime, self.size)",
+      "        m = self.mtime\n        (c, sz) = (self.ctime, self.size)\n"
+      "        self.bdb.did_upload_file(filecap, self.path, m, c, size=sz)", None),
+    M("benign-meta-refreshed-before-return", B,
+      "    def did_upload(self, filecap):\n",
+      "    def examine(self):\n        s = os.stat(self.path)\n        self.size = s[stat.ST_SIZE]\n"
+      "        self.mtime = s[stat.ST_MTIME]\n        self.ctime = s[stat.ST_CTIME]\n        return self\n\n"
+      "    def did_upload(self, filecap):\n", None,
+      edits=[(B, "        if not row:\n            return FileResult(self, None, False, path, mtime, ctime, size)\n",
+              "        if not row:\n            return FileResult(self, None, False, path, mtime, ctime, size).examine()\n")]),
+    M("benign-tb-metadata-after-check", T,
+      "        metadata = get_local_metadata(childpath)\n\n        # we can use the backupdb here\n"
+      "        must_upload, bdb_results = self.check_backupdb_file(childpath)\n",
+      "        must_upload, bdb_results = self.check_backupdb_file(childpath)\n        metadata = get_local_metadata(childpath)\n", None),
+    M("benign-tb-with-open", T,
+      "            infileobj = open(childpath, \"rb\")\n            url = self.options['node-url'] + \"uri\"\n"
+      "            resp = do_http(\"PUT\", url, infileobj)\n",
+      "            url = self.options['node-url'] + \"uri\"\n            with open(childpath, \"rb\") as infileobj:\n"
+      "                resp = do_http(\"PUT\", url, infileobj)\n", None),
     # ---- vanished anchor
     M("vanish-check-file", B, "    def check_file(self, path, use_timestamps=True):", "    def check_file_v2(self, path, use_timestamps=True):",
       "ANALYSIS-ERROR"),
